@@ -12,6 +12,8 @@
 package main
 
 import (
+	"bytes"
+	"compress/zlib"
 	"fmt"
 	"math"
 	"math/rand"
@@ -31,6 +33,15 @@ type file struct {
 	desc   *pbfgen.FileDesc
 	data   []byte
 	frames []pbfgen.Frame
+	// hook, when set, rewrites BlobHeader/Blob trees at encoding time (see encodeHook)
+	hook func(idx int, h, b []pbfgen.Field) ([]pbfgen.Field, []pbfgen.Field)
+	// empties: positions at which intact empty blocks were inserted (kept by build copies)
+	empties []emptyAt
+}
+
+type emptyAt struct {
+	at   int
+	zlib bool
 }
 
 func build(seed int64, opts pbfgen.Opts) *file {
@@ -39,8 +50,35 @@ func build(seed int64, opts pbfgen.Opts) *file {
 	return &file{seed: seed, opts: opts, desc: d}
 }
 
+// withEmpties inserts the intact empty blocks (deterministically, so that copies agree)
+func (f *file) withEmpties(es []emptyAt) *file {
+	for _, e := range es {
+		at := e.at
+		if at > len(f.desc.Blocks) {
+			at = len(f.desc.Blocks)
+		}
+		f.desc.Blocks = append(f.desc.Blocks, nil)
+		copy(f.desc.Blocks[at+1:], f.desc.Blocks[at:])
+		f.desc.Blocks[at] = emptyBlock(e.zlib)
+	}
+	f.empties = es
+	return f
+}
+
 func (f *file) encode() {
+	if f.hook != nil {
+		f.data, f.frames = encodeHook(f.desc, f.hook)
+		return
+	}
 	f.data, f.frames = pbfgen.Encode(f.desc)
+}
+
+// emptyBlock: an intact PrimitiveBlock with no field at all (payload of zero bytes), as a raw blob
+// or as a zlib blob (raw_size 0, the zlib encoding of the empty string).
+func emptyBlock(z bool) *pbfgen.Block {
+	b := &pbfgen.Block{OmitStringTable: true}
+	b.Zlib = z
+	return b
 }
 
 func genFile(rng *rand.Rand, maxSize int, noHeader bool) *file {
@@ -48,6 +86,15 @@ func genFile(rng *rand.Rand, maxSize int, noHeader bool) *file {
 		opts := pbfgen.Opts{MinBlocks: 1, MaxBlocks: 4, MaxGroups: 2, MaxItems: 3, MaxTags: 2, MaxRefs: 3, MaxMembers: 3,
 			ExtremePct: -1, NoHeader: noHeader}
 		f := build(rng.Int63(), opts)
+		// every other file carries one or two intact EMPTY blocks (zero-byte payload; zlib with
+		// raw_size 0, or raw) somewhere, also in the middle
+		if rng.Intn(2) == 0 {
+			es := []emptyAt{{rng.Intn(len(f.desc.Blocks) + 1), true}}
+			if rng.Intn(2) == 0 {
+				es = append(es, emptyAt{rng.Intn(len(f.desc.Blocks) + 2), false})
+			}
+			f.withEmpties(es)
+		}
 		f.encode()
 		if len(f.data) <= maxSize {
 			return f
@@ -229,6 +276,41 @@ func blobDamage(name string, fn func(o *pbfgen.BlobOpts, d *pbfgen.Damage)) dmg 
 	}}
 }
 
+func deflateEmpty() []byte {
+	var buf bytes.Buffer
+	zw := zlib.NewWriter(&buf)
+	zw.Close()
+	return buf.Bytes()
+}
+
+// blobTreeDamage replaces the Blob message of the block by mk(payload) and fixes datasize
+func blobTreeDamage(name string, mk func(payload []byte) []pbfgen.Field) dmg {
+	return dmg{name: name, header: true, data: true, apply: func(f *file, pos int, _ *rand.Rand) bool {
+		o := opts(f, pos)
+		o.Zlib, o.RawSizeOnRaw, o.Damage = false, false, nil
+		f.hook = func(idx int, h, b []pbfgen.Field) ([]pbfgen.Field, []pbfgen.Field) {
+			if idx != pos {
+				return h, b
+			}
+			var payload []byte
+			for i := range b {
+				if b[i].Num == 1 && b[i].Kind == pbfgen.KBytes {
+					payload = b[i].Bytes
+				}
+			}
+			nb := mk(payload)
+			ds := len(pbfgen.Serialize(nb))
+			for i := range h {
+				if h[i].Num == 3 && h[i].Kind == pbfgen.KVarint {
+					h[i].Var = uint64(ds)
+				}
+			}
+			return h, nb
+		}
+		return true
+	}}
+}
+
 // a fresh group with a crafted item is inserted into the block
 func inBlock(name string, mk func(b *pbfgen.Block, bad uint32, rng *rand.Rand) pbfgen.Item) dmg {
 	return dmg{name: name, data: true, inBlock: true, apply: func(f *file, pos int, rng *rand.Rand) bool {
@@ -323,6 +405,21 @@ func damages() []dmg {
 		blobDamage("zlib_header", func(o *pbfgen.BlobOpts, d *pbfgen.Damage) { zl(o); d.CorruptZlib = 4 }),
 		blobDamage("no_data", func(o *pbfgen.BlobOpts, d *pbfgen.Damage) { d.NoData = true }),
 		blobDamage("empty_blob", func(o *pbfgen.BlobOpts, d *pbfgen.Damage) { d.EmptyBlob = true }),
+		// the blob message itself rewritten (payload taken from the raw field the writer produced)
+		blobTreeDamage("zlib_empty_stream", func(payload []byte) []pbfgen.Field {
+			// a valid zlib stream that inflates to ZERO bytes while raw_size announces the payload
+			return []pbfgen.Field{{Num: 2, Kind: pbfgen.KVarint, Var: uint64(len(payload))}, {Num: 3, Kind: pbfgen.KBytes, Bytes: deflateEmpty()}}
+		}),
+		blobTreeDamage("zlib_data_empty", func(payload []byte) []pbfgen.Field {
+			// zlib_data present but zero bytes long
+			return []pbfgen.Field{{Num: 2, Kind: pbfgen.KVarint, Var: uint64(len(payload))}, {Num: 3, Kind: pbfgen.KBytes, Bytes: []byte{}}}
+		}),
+		blobTreeDamage("lz4_data", func(payload []byte) []pbfgen.Field {
+			return []pbfgen.Field{{Num: 2, Kind: pbfgen.KVarint, Var: uint64(len(payload))}, {Num: 6, Kind: pbfgen.KBytes, Bytes: payload}}
+		}),
+		blobTreeDamage("zstd_data", func(payload []byte) []pbfgen.Field {
+			return []pbfgen.Field{{Num: 2, Kind: pbfgen.KVarint, Var: uint64(len(payload))}, {Num: 7, Kind: pbfgen.KBytes, Bytes: payload}}
+		}),
 		blobDamage("type_other", func(o *pbfgen.BlobOpts, d *pbfgen.Damage) { d.BlobType = pbfgen.Str("OSMFoo") }),
 		{name: "type_header_again", data: true, apply: func(f *file, pos int, _ *rand.Rand) bool {
 			if f.desc.Header == nil && pos == 0 {
@@ -403,9 +500,12 @@ func payloadLen(f *file, pos int) int {
 }
 
 func damageCase(w *wire.Writer, r *pbfrun.Runner, base *file, dm *dmg, pos int, rng *rand.Rand) (*wire.Case, error) {
-	f := build(base.seed, base.opts) // fresh copy of the same description
+	f := build(base.seed, base.opts).withEmpties(base.empties) // fresh copy of the same description
 	if !dm.apply(f, pos, rng) {
 		return nil, nil
+	}
+	if (dm.name == "rawsize_zero" || dm.name == "zlib_empty_stream") && payloadLen(f, pos) == 0 {
+		return nil, nil // raw_size 0 / an empty stream is what an intact empty block has
 	}
 	if o := opts(f, pos); o.Damage != nil && o.Damage.RawSize != nil {
 		switch *o.Damage.RawSize {
@@ -453,6 +553,9 @@ func observeDamage(w *wire.Writer, r *pbfrun.Runner, f *file, name string, pos i
 	for _, p := range procsList {
 		cfgs = append(cfgs, runCfg{p, false})
 	}
+	// more decoders than the channel budget (unbuffered channels): the pipeline must still wind
+	// down after the error, Close included
+	cfgs = append(cfgs, runCfg{16, false})
 	if di == 0 { // damage in the first block: also Header() first, then the Scan loop
 		cfgs = append(cfgs, runCfg{1, true}, runCfg{5, true})
 	}
@@ -576,7 +679,7 @@ func wholeCase(w *wire.Writer, r *pbfrun.Runner, f *file, class string) (*wire.C
 	return c, nil
 }
 
-func buildCopy(base *file) *file { return build(base.seed, base.opts) }
+func buildCopy(base *file) *file { return build(base.seed, base.opts).withEmpties(base.empties) }
 
 // encodeHook writes the file like pbfgen.Encode, but lets hook rewrite the BlobHeader and Blob
 // message trees of every block (idx -1 = header block) before they are serialized.
@@ -863,7 +966,7 @@ func main() {
 	{
 		f := genFile(rng, maxSize, false)
 		pos := len(f.desc.Blocks) - 1
-		g := build(f.seed, f.opts)
+		g := buildCopy(f)
 		if padHeader(g, pos, 65535) {
 			c, err := wholeCase(w, r, g, "whole:header_65535")
 			if err != nil {
